@@ -169,3 +169,64 @@ pub fn instant_y1_9999(u: &mut Unstructured) -> Result<i128> {
     };
     Ok(d as i128 * tl::DAY_NS + day_ns(u)? as i128)
 }
+
+/// An instant as (day number, nanoseconds of day): serialisable without 128-bit numbers.
+#[derive(Debug, Clone, Copy, Hash, PartialEq, Eq, serde::Serialize, serde::Deserialize)]
+pub struct Inst {
+    pub day: i64,
+    pub ns: i64,
+}
+
+impl Inst {
+    pub fn i(&self) -> i128 {
+        self.day as i128 * tl::DAY_NS + self.ns as i128
+    }
+    pub fn from_i(i: i128) -> Self {
+        Inst { day: i.div_euclid(tl::DAY_NS) as i64, ns: i.rem_euclid(tl::DAY_NS) as i64 }
+    }
+    pub fn valid(&self) -> bool {
+        (cal::MIN_DAY..=cal::MAX_DAY).contains(&self.day) && (0..86_400_000_000_000).contains(&self.ns)
+    }
+}
+
+pub fn inst(u: &mut Unstructured, margin: i64) -> Result<Inst> {
+    Ok(Inst { day: day_inside(u, margin)?, ns: day_ns(u)? })
+}
+
+/// a second instant near/far from `a`: boundary-dense deltas
+pub fn inst_near(u: &mut Unstructured, a: Inst, margin: i64) -> Result<Inst> {
+    let k = u.below(14)?;
+    let ai = a.i();
+    let d: i128 = match k {
+        0 => 0,
+        1 => 1,
+        2 => tl::NS - 1,
+        3 => tl::NS,
+        4 => tl::DAY_NS - 1,
+        5 => tl::DAY_NS,
+        6 => tl::DAY_NS + 1,
+        // less than one unit
+        7 => {
+            let unit = tl::unit_ns(u.below(7)? as u8);
+            (u.below(unit as u64)? as i128).max(1)
+        }
+        // k units +- small
+        8 => {
+            let unit = tl::unit_ns(u.below(7)? as u8);
+            u.below(1000)? as i128 * unit + u.range_i64(-1, 1)? as i128
+        }
+        // straddle day 0 / go to the other side of the era
+        9 => ai.abs() + u.below(2 * tl::DAY_NS as u64)? as i128,
+        10 => u.below(400 * tl::DAY_NS as u64)? as i128,
+        11 => {
+            // far: anywhere in range
+            let other = inst(u, margin)?;
+            return Ok(other);
+        }
+        _ => u.below(3 * tl::DAY_NS as u64)? as i128,
+    };
+    let sign: i128 = if u.coin(1, 2)? { 1 } else { -1 };
+    let lo = (cal::MIN_DAY + margin) as i128 * tl::DAY_NS;
+    let hi = (cal::MAX_DAY - margin) as i128 * tl::DAY_NS + tl::DAY_NS - 1;
+    Ok(Inst::from_i((ai + sign * d).clamp(lo, hi)))
+}
